@@ -159,3 +159,8 @@ package cookie
 //@ ensures[store-uses-the-given-cookie-options-and-a-cipher-from-its-secret] ret1 == nil ==> ret1(NewCFBCipher) == nil
 //@     && bytes(arg(NewCFBCipher, 0)) == bytes(ret(SecretBytes)) && arg(SecretBytes, 0) == cookieOpts.Secret
 //@ ensures[cipher-error-is-an-error] ret1(NewCFBCipher) != nil ==> ret1 != nil && ret0 == nil
+//@ prop C19 C02
+//@ ensures[nonnil:store-has-its-options-and-cipher] ret1 == nil ==> typeis(ret0, "*SessionStore") && as(ret0, "*SessionStore").Cookie == cookieOpts
+//@     && as(ret0, "*SessionStore").CookieCipher == ret0(NewCFBCipher) && ret0(NewCFBCipher) != nil
+//@ prop C19
+//@ scan[nonnil:cookie-store-allocated-by-its-constructor] alloc-of pkg/sessions/cookie.SessionStore pkg/sessions/cookie.NewCookieSessionStore pkg/sessions/cookie.init
